@@ -1,4 +1,4 @@
-HOOK_COMMITS = ["74c1968", "80f8eba"]
+HOOK_COMMITS = ["74c1968", "80f8eba", "7c7c9f0", "e474722", "85831de"]
 T = "contract-based deductive verification: weakest-precondition style symbolic execution of the go/ssa (naive form) IR of the current /repo sources against contracts in /repo/contracts_verif.go; obligations discharged by z3/cvc5"
 CLAIMED.update({
  "C01": (T,
@@ -9,4 +9,10 @@ CLAIMED.update({
    "proof: zero-annotation panic-freedom sweep (nil dereference, index, slice bounds, type assertion, division, nil map, makeslice) of every function on the request decode path, for every packet tree in wire form; `panics false` on each function, callee contracts used at call sites.",
    "trusted: go-asn1-ber never returns nil children / nil Data (nonnull directives), wire predicate, catalogue. conn.readPacket/Log not yet under contract in this round; resource exhaustion and stack depth are not panics in the model.",
    "DESIGN.md §5 C02"),
+})
+CLAIMED.update({
+ "C16": (T,
+   "proof: `panics false` with no pre-condition on arguments for ConvertString, readLength, SIDBytes, SIDBytesToString, NewEntry, NewEntryAttribute, AddValue, GetAttributeValues, the New*Response constructors, the NewControl* constructors, NewMux and the eight registration methods; every With* option closure is verified against the Option function-type contract used for arbitrary option lists (so every subset and order of options is covered, not enumerated). Functional: ConvertString returns, for every X.690 definite-length wrapped string, exactly the bytes after the header (inverse of wrapping, pointwise); NewEntryAttribute/AddValue keep Values and ByteValues equal element by element; Behera constructor never yields error > 8.",
+   "trusted: encoding/binary, bytes.Buffer, sort.Strings, reflect (isNil) catalogue entries; A-USER: Option values are nil or produced by gldap's With* functions; receivers satisfy reqOK (message built by the decoder). Not proved: SIDBytesToString(SIDBytes(r,a)) == \"S-r-a\" (binary layout is opaque in the catalogue) and the ordering/determinism part of NewEntry (only totality and DN).",
+   "DESIGN.md §5 C16"),
 })
